@@ -282,3 +282,13 @@ Definition zk_session (is_session : bool) (st : zkstate) (connected : bool) : li
    touched.  A refresh that is not answered is therefore NO event of the model; an answered one is Refresh. *)
 Definition refresh_events (answered : bool) (now : Z) (present : list (positive * Z)) : list event :=
   if answered then [Refresh now present] else [].
+
+(* ---- Configure since /repo 38fa1ff: every module's interval must be a positive time.Duration in seconds ----
+       interval := viper.GetInt64(root+".interval")
+       if interval < 1 || interval > math.MaxInt64/int64(time.Second) { panic("Notifier '...' has an invalid interval ...") }
+   (math.MaxInt64/int64(time.Second) = 9223372036 = max_pace_interval.)  None = Configure panics (core.Start reports the
+   invalid configuration); Some mi = accepted, nc.minInterval = mi. *)
+Definition interval_ok (m : modcfg) : bool := (1 <=? eff_interval m) && (eff_interval m <=? max_pace_interval).
+
+Definition configure (mods : list modcfg) : option Z :=
+  if forallb interval_ok mods then Some (configure_min mods) else None.
